@@ -4972,3 +4972,51 @@ mutant('C04-mask-merge-skips-empty-chunk', 'C04',
          "indices_dtype)\n"
          "                indptr = src['indptr'][()]\n")],
        'R-CURSOR', '_merge_masks')
+
+# further twins for the rules of rounds 14-16
+twin('C20-twin-word-to-path-inlined', 'C20',
+     'the sanitiser turns the word into a path itself',
+     [(_CLD, "            path = _word_to_path(word)\n",
+       "            path = pathlib.Path(\n"
+       "                word.replace('\"', '').replace(\"'\", ''))\n")])
+twin('C10-twin-pure-helper-memoised', 'C10',
+     'a pure helper of the data-release reader is memoised',
+     [(_DRU, "import json\n", "import functools\nimport json\n\n\n"
+       "@functools.lru_cache(maxsize=None)\n"
+       "def _split_line(line):\n"
+       "    return tuple(line.strip().split(','))\n"),
+      (_DRU, "    header_line = header_line.strip().split(',')\n",
+       "    header_line = list(_split_line(header_line))\n")])
+twin('C17-twin-parent-entry-read-into-arrays', 'C17',
+     'the positions of the parent\'s cache entry are read through '
+     'np.array',
+     [(_MT, "        reference_markers = this_grp['reference'][()]\n"
+       "        raw_query_markers = this_grp['query'][()]\n",
+       "        reference_markers = np.array(this_grp['reference'])\n"
+       "        raw_query_markers = np.array(this_grp['query'])\n")])
+twin('C16-twin-rounding-unknown-encoding-first', 'C16',
+     'round_x_to_integers rejects an unknown encoding before it creates '
+     'its scratch directory',
+     [(_VU, "    tmp_dir = pathlib.Path(\n"
+       "        tempfile.mkdtemp(\n"
+       "            dir=tmp_dir,\n"
+       "            prefix='round_x_to_integers_staging_'))\n",
+       "    with h5py.File(h5ad_path, 'r') as src:\n"
+       "        first_look = dict(src['X'].attrs)['encoding-type']\n"
+       "    if first_look != 'array' and 'csr' not in first_look \\\n"
+       "            and 'csc' not in first_look:\n"
+       "        raise RuntimeError(\n"
+       "            f\"Do not know how to handle encoding-type "
+       "{first_look}\")\n"
+       "    tmp_dir = pathlib.Path(\n"
+       "        tempfile.mkdtemp(\n"
+       "            dir=tmp_dir,\n"
+       "            prefix='round_x_to_integers_staging_'))\n")])
+mutant('C20-inlined-word-to-path-skips-long-words', 'C20',
+       'the sanitiser, turning words into paths itself, does not look up '
+       'long words',
+       [(_CLD, "            path = _word_to_path(word)\n",
+         "            path = pathlib.Path('.') if len(word) > 255 else \\\n"
+         "                pathlib.Path(word.replace('\"', '').replace(\n"
+         "                    \"'\", ''))\n")],
+       'R-SAMEVAL/word-tested-as-is', 'sanitize_paths')
